@@ -26,6 +26,7 @@ UQuick == [
     nums   |-> {0, 7, -3, 12},         numsr  |-> {7},
     buffs  |-> {<<<<>>, 0>>, <<<<97>>, 1>>, <<<<97, 66, 32>>, 2>>, <<<<97, 0, 66>>, 3>>, <<<<0, 97>>, 2>>, <<<<32, 66, 0, 0>>, 4>>},
     nullbuffs |-> {0, 3},
+    bigs   |-> {<<57, 57, 57, 57, 57, 57, 57, 57, 57, 57, 57, 57, 57, 57, 57, 57, 57, 57, 57, 57, 57, 57>>},
     fps    |-> {<<>>, <<97>>, <<97, 10>>, <<10>>, <<32, 66, 10, 97, 10>>, <<97, 66, 32>>},
     fds    |-> {<<>>, <<97>>, <<32, 66>>, <<97, 66, 32, 32>>, <<97, 10>>},
     fptr   |-> {0, 1},                 fdtr   |-> {0, 1, 3} ]
@@ -34,7 +35,7 @@ QNumTexts   == {NumText(k) : k \in UQuick.nums}
 \* their combined length.  States outside are still generated, emitted and replayed as *targets*; they are only not
 \* expanded further.
 ConstraintQuick ==
-    /\ (Over(a, QAlpha) \/ a \in QNumTexts) /\ (Over(b, QAlpha) \/ b \in QNumTexts)
+    /\ (Over(a, QAlpha) \/ a \in QNumTexts \/ a \in UQuick.bigs) /\ (Over(b, QAlpha) \/ b \in QNumTexts)
     /\ (al /\ bl) => (Len(a) + Len(b) <= 3 /\ Over(a, QAlpha) /\ Over(b, QAlpha))
 
 ------------------------------------------------------------------------------------------
@@ -54,12 +55,13 @@ UThorough == [
     buffs  |-> {<<<<>>, 0>>, <<<<97>>, 1>>, <<<<97, 66, 200>>, 2>>, <<<<97, 0, 66>>, 3>>, <<<<0, 97>>, 2>>, <<<<200, 66, 0, 0>>, 4>>,
                 <<<<55, 55, 55, 55, 55>>, 5>>},
     nullbuffs |-> {0, 3},
+    bigs   |-> {<<57, 57, 57, 57, 57, 57, 57, 57, 57, 57, 57, 57, 57, 57, 57, 57, 57, 57, 57, 57, 57, 57>>},
     fps    |-> {<<>>, <<97>>, <<97, 10>>, <<10>>, <<200, 66, 10, 97, 10>>, <<97, 66, 200>>, <<10, 10>>},
     fds    |-> {<<>>, <<97>>, <<200, 66>>, <<97, 66, 55, 200>>, <<97, 10>>},
     fptr   |-> {0, 1},                 fdtr   |-> {0, 1, 3} ]
 TNumTexts   == {NumText(k) : k \in UThorough.nums}
 ConstraintThorough ==
-    /\ (Over(a, TAlpha) \/ a \in TNumTexts) /\ (Over(b, TAlpha) \/ b \in TNumTexts)
+    /\ (Over(a, TAlpha) \/ a \in TNumTexts \/ a \in UThorough.bigs) /\ (Over(b, TAlpha) \/ b \in TNumTexts)
     /\ (al /\ bl) => (Len(a) + Len(b) <= 3 /\ Over(a, TAlpha) /\ Over(b, TAlpha))
     /\ (~al /\ bl) => Len(b) <= 3
 
@@ -79,11 +81,12 @@ UThorough2 == [
     nums   |-> {0},                    numsr  |-> {0},
     buffs  |-> {<<<<9, 97, 32, 9, 97, 32>>, 6>>, <<<<32, 0, 97>>, 3>>},
     nullbuffs |-> {6},
+    bigs   |-> {<<57, 57, 57, 57, 57, 57, 57, 57, 57, 57, 57, 57, 57, 57, 57, 57, 57, 57, 57, 57, 57, 57>>},
     fps    |-> {<<9, 97, 32, 9, 97, 32, 10, 97>>, <<32, 10>>},
     fds    |-> {<<9, 97, 32, 9, 97, 32>>, <<32>>},
     fptr   |-> {0, 1},                 fdtr   |-> {0, 1, 3} ]
 ConstraintThorough2 ==
-    /\ (Over(a, T2Alpha) \/ a = <<48>>) /\ (Over(b, T2Alpha) \/ b = <<48>>)
+    /\ (Over(a, T2Alpha) \/ a = <<48>> \/ a \in UThorough2.bigs) /\ (Over(b, T2Alpha) \/ b = <<48>>)
     /\ (al /\ bl) => Len(a) + Len(b) <= 3
     /\ (~al /\ bl) => Len(b) <= 3
 ================================================================================
